@@ -45,7 +45,7 @@ pub fn check_cell(c: &Cell, st: &mut Stats) -> Result<(), String> {
     Ok(())
 }
 
-fn hex_value_check(v: u64, st: &mut Stats) -> Result<(), String> {
+pub fn hex_value_check(v: u64, st: &mut Stats) -> Result<(), String> {
     let s = a5::u64_to_hex(v);
     let canonical = !s.is_empty()
         && s.len() <= 16
@@ -100,7 +100,7 @@ fn own_parse(s: &str) -> Option<Option<u64>> {
     }
 }
 
-fn hex_string_check(s: &String, st: &mut Stats) -> Result<(), String> {
+pub fn hex_string_check(s: &String, st: &mut Stats) -> Result<(), String> {
     let r = a5::hex_to_u64(s);
     if s.is_empty() {
         if r.is_ok() {
